@@ -44,6 +44,7 @@ fn main() {
         }
         Some("smoke") => props::smoke(),
         Some("golden-gen") => props::c10::generate(),
+        Some("sched-prog") => props::sched_prog(&args[2], args[3].parse().unwrap_or(1), args.get(4).and_then(|s| s.parse().ok()).unwrap_or(120.0)),
         Some("c20-inner") => props::c20::inner(&args[2..]),
         Some("c19-case") => props::c19::debug_case(args[2].parse().unwrap(), args[3].parse().unwrap(), &args[4]),
         Some("c17-worker") => props::c17::worker(&args[2..]),
